@@ -290,6 +290,12 @@ class Create:
         d = len(N)
         if M is None or len(M) != d:
             M = [rng.randint(1, 4) for _ in range(d)] if rng.random() < 0.5 else list(N)
+        if kind in ('svd_m', 'svd_m_np') and int(np.prod(N)) * int(np.prod(M)) > 50000:
+            # the row sizes were drawn after the bound above was applied to a tensor shape: a dense operator source of
+            # (prod N)^2 entries is a quarter of an hour of SVD
+            N = rshape(rng)
+            d = len(N)
+            M = [rng.randint(1, 4) for _ in range(d)]
         R = rranks(rng, d)
         p = {'kind': kind, 'N': N, 'M': M, 'R': R, 'dt': dt, 'vseed': rng.getrandbits(31),
              'eps': rng.choice([1e-12, 1e-8, 1e-3, 0.1]),
@@ -689,7 +695,9 @@ class Reshape:
 class Permute:
     @staticmethod
     def pick(rng, S):
-        c = S.objs(lambda x: len(x.N) >= 2)
+        # bounded like reshape: a random permutation of a long operator chain makes the ranks grow towards the size of the
+        # unfoldings, and one supercore SVD of an order-8 operator with 6x8 modes runs for a quarter of an hour
+        c = S.objs(lambda x: len(x.N) >= 2 and dense_numel(x) <= MAX_DENSE)
         if not c:
             return None
         x = rng.choice(c)
@@ -706,7 +714,7 @@ class Permute:
 class ToQtt:
     @staticmethod
     def pick(rng, S):
-        c = S.objs(lambda x: all(n in (1, 2, 4, 8, 16) for n in gen.ints(x.N)) and (is_t(x) or gen.ints(x.M) == gen.ints(x.N)))
+        c = S.objs(lambda x: all(n in (1, 2, 4, 8, 16) for n in gen.ints(x.N)) and (is_t(x) or gen.ints(x.M) == gen.ints(x.N)) and dense_numel(x) <= MAX_DENSE)
         if not c:
             return None
         return [rng.choice(c).sid], {'eps': rng.choice([1e-12, 1e-3])}
